@@ -46,7 +46,7 @@ func c11Run(line string) string {
 			eq = fmt.Sprintf(" eq=%v", c11Equal(dst.Elem(), v))
 		}
 		return vhHex(enc) + " | " + out + eq
-	case "menc", "mdec":
+	case "menc", "mdec", "mrt":
 		return c11MapRun(f)
 	case "order": // order <type>: the field order fieldScaleIndices computes for a struct type
 		t := c11ParseTy(f[1])
@@ -66,88 +66,6 @@ func c11Run(line string) string {
 	return "bad-op"
 }
 
-// c11Equal compares two Go values structurally (big integers by value, nil and empty byte
-// strings / slices identified: SCALE cannot distinguish them).
-func c11Equal(a, b reflect.Value) bool {
-	return c11Canon(a) == c11Canon(b)
-}
-
-func c11Canon(v reflect.Value) string { return c11CanonAny(v) }
-
-func c11CanonAny(v reflect.Value) string {
-	if !v.IsValid() {
-		return "<invalid>"
-	}
-	if v.CanInterface() {
-		switch x := v.Interface().(type) {
-		case Result:
-			switch x.mode {
-			case OK:
-				return "O" + c11CanonAny(reflect.ValueOf(x.ok))
-			case Err:
-				return "E" + c11CanonAny(reflect.ValueOf(x.err))
-			}
-			return "R?"
-		case c11VDT:
-			if x.inner == nil {
-				return "V?"
-			}
-			return fmt.Sprintf("V%d:%s", x.idx[x.cur], c11CanonAny(reflect.ValueOf(x.inner)))
-		case c11EnumA:
-			i, val, err := x.IndexValue()
-			if err != nil {
-				return "V?"
-			}
-			return fmt.Sprintf("V%d:%s", i, c11CanonAny(reflect.ValueOf(val)))
-		case c11EnumB:
-			i, val, err := x.IndexValue()
-			if err != nil {
-				return "V?"
-			}
-			return fmt.Sprintf("V%d:%s", i, c11CanonAny(reflect.ValueOf(val)))
-		case empty:
-			return "u"
-		}
-	}
-	switch v.Kind() {
-	case reflect.Ptr:
-		if v.IsNil() {
-			return "N"
-		}
-		if v.CanInterface() {
-			switch x := v.Interface().(type) {
-			case interface{ String() string }:
-				return x.String() // *big.Int, *Uint128
-			}
-		}
-		return "S" + c11CanonAny(v.Elem())
-	case reflect.Struct:
-		var xs []string
-		for i := 0; i < v.NumField(); i++ {
-			if v.Type().Field(i).PkgPath != "" {
-				xs = append(xs, "_")
-				continue
-			}
-			xs = append(xs, c11CanonAny(v.Field(i)))
-		}
-		return "(" + strings.Join(xs, ",") + ")"
-	case reflect.Slice:
-		if v.Type().Elem().Kind() == reflect.Uint8 {
-			return "x" + vhHex(v.Bytes())
-		}
-		fallthrough
-	case reflect.Array:
-		var xs []string
-		for i := 0; i < v.Len(); i++ {
-			xs = append(xs, c11CanonAny(v.Index(i)))
-		}
-		return "[" + strings.Join(xs, ",") + "]"
-	case reflect.String:
-		return "x" + vhHex([]byte(v.String()))
-	}
-	return fmt.Sprint(v.Interface())
-}
-
 func c11Gen(r *vhRng) string {
 	if r.Chance(1, 40) { // field order of a struct type
 		for {
@@ -157,8 +75,8 @@ func c11Gen(r *vhRng) string {
 			}
 		}
 	}
-	if r.Chance(1, 25) { // a Go map
-		return c11MapGen(r, true)
+	if r.Chance(1, 12) { // a Go map: encoding (menc) or round trip (mrt)
+		return c11MapGen(r, r.Pick(0, 1, 1))
 	}
 	t := c11GenTopTy(r)
 	v := c11GenVal(r, t)
